@@ -145,6 +145,9 @@ func maskRec(mask int) M {
 
 // newConf builds a config with the small universe registered; returns the directive
 // prefix to put in front of the source (empty for programmatic options).
+// foreignConsts: register the constant KI with a Go value outside the engine's value types
+var foreignConsts bool
+
 func newConf(o ConfOpts, l *Log) (*eval.Config, string) {
 	cc := eval.NewConfig()
 	if !o.Undefined {
@@ -162,6 +165,9 @@ func newConf(o ConfOpts, l *Log) (*eval.Config, string) {
 	}
 	cc.ConstantMap["K"] = int64(3)
 	cc.ConstantMap["KT"] = true
+	if foreignConsts {
+		cc.ConstantMap["KI"] = int(3) // a Go int: not one of the engine's value types
+	}
 	for k, v := range o.Costs {
 		cc.CostsMap[k] = v
 	}
